@@ -30,18 +30,18 @@ VARIABLES objs, phase, last, ncalls, tok, nbuf,
 vars == <<objs, phase, last, ncalls, tok, nbuf, hist>>
 MCView == <<objs, phase, last, ncalls, tok, nbuf>>     \* model checking: the history itself is not state
 
-BaseCoords == << <<"band", "b1">>, <<"x", "cx">>, <<"y", "cy">> >>
+BaseCoords == << <<"band", "b1", 0>>, <<"x", "cx", 1>>, <<"y", "cy", 1>> >>      \* <<name, digest, ndim>>
 BaseAttrs  == << <<"res", "r0">>, <<"crs", "c0">> >>
 Dims2 == <<"y", "x">>
-WindowOf(pairs) == [i \in 1..Len(pairs) |-> IF pairs[i][1] \in {"x", "y"} THEN <<pairs[i][1], pairs[i][2] \o "w">> ELSE pairs[i]]
+WindowOf(pairs) == [i \in 1..Len(pairs) |-> IF pairs[i][3] > 0 THEN <<pairs[i][1], pairs[i][2] \o "w", pairs[i][3]>> ELSE pairs[i]]
 DimOnly(pairs) == SelectSeq(pairs, LAMBDA p : p[1] \in {"x", "y"})
 
 NoRes == [id |-> "", kind |-> "none", bufs |-> <<>>, wr |-> FALSE, val |-> 0, dtype |-> "", coords |-> <<>>,
-          attrs |-> <<>>, dims |-> <<>>, shape |-> <<>>, backend |-> "", name |-> ""]
+          attrs |-> <<>>, dims |-> <<>>, shape |-> <<>>, backend |-> "", name |-> "", cbufs |-> <<>>, val2 |-> 0]
 
 MkObj(id, buf, wr, val, dt, bk) ==
   [id |-> id, kind |-> "raster", bufs |-> <<buf>>, wr |-> wr, val |-> val, dtype |-> dt, coords |-> BaseCoords,
-   attrs |-> BaseAttrs, dims |-> Dims2, shape |-> <<6, 7>>, backend |-> bk, name |-> id]
+   attrs |-> BaseAttrs, dims |-> Dims2, shape |-> <<6, 7>>, backend |-> bk, name |-> id, cbufs |-> <<100 + buf>>, val2 |-> val]
 
 Init ==
   /\ \E bk \in BK : \E d1 \in DT, d2 \in DT : \E w1 \in BOOLEAN, w2 \in BOOLEAN :
@@ -66,10 +66,18 @@ EffNormal(f, a) ==
       r0 == [id |-> RId, kind |-> "raster", bufs |-> <<nbuf + 1>>, wr |-> TRUE, val |-> tok + 1, dtype |-> CastTo(f),
              coords |-> IF MUT = "coords_dropped" THEN DimOnly(a.coords) ELSE a.coords,
              attrs |-> attrs, dims |-> a.dims, shape |-> a.shape,
-             backend |-> IF MUT = "eager_on_dask" THEN "numpy" ELSE a.backend, name |-> f]
+             backend |-> IF MUT = "eager_on_dask" THEN "numpy" ELSE a.backend, name |-> f,
+             \* DataArray(out, coords=agg.coords) copies the coordinate variables; agg.copy(deep=False, data=out) shares them
+             cbufs |-> IF MUT = "coords_shared" THEN a.cbufs ELSE <<100 + nbuf + 1>>,
+             \* a Dask kernel that writes over the raster's own blocks: recomputing the lazy result gives other values
+             val2 |-> IF MUT = "dask_kernel_inplace" /\ a.backend = "dask" /\ a.dtype = CastTo(f) THEN tok + 3 ELSE tok + 1]
       \* astype(copy=False) is a no-op exactly when the dtype already matches
       r  == IF MUT = "astype_noop_return" /\ same THEN [r0 EXCEPT !.bufs = a.bufs, !.wr = a.wr] ELSE r0
-      o1 == IF MUT = "astype_noop_inplace" /\ same /\ a.wr THEN WriteBufs(objs, a.bufs, tok + 10) ELSE objs
+      \* dask.Array.astype to the SAME dtype returns the array itself: a kernel writing over its argument then overwrites
+      \* the raster's own blocks when the result is computed
+      daskSame == a.dtype = CastTo(f) /\ a.backend = "dask"
+      o1 == IF (MUT = "astype_noop_inplace" /\ same /\ a.wr) \/ (MUT = "dask_kernel_inplace" /\ daskSame)
+            THEN WriteBufs(objs, a.bufs, tok + 10) ELSE objs
       o2 == IF MUT = "attrs_shared" /\ f = "hotspots" THEN Replace(o1, a.id, [Obj(o1, a.id) EXCEPT !.attrs = Append(a.attrs, Unit)]) ELSE o1
   IN [objs |-> o2, res |-> r]
 
@@ -80,23 +88,23 @@ EffView(f, src) ==
             val |-> tok + 1, dtype |-> src.dtype,
             coords |-> IF MUT = "coords_dropped" THEN DimOnly(WindowOf(src.coords)) ELSE WindowOf(src.coords),
             attrs |-> IF MUT = "view_drops_attrs" THEN <<>> ELSE src.attrs,
-            dims |-> src.dims, shape |-> <<3, 5>>, backend |-> src.backend, name |-> f]]
+            dims |-> src.dims, shape |-> <<3, 5>>, backend |-> src.backend, name |-> f, cbufs |-> src.cbufs, val2 |-> tok + 1]]
 
 EffPerlin(a) ==
   IF PERLIN = "asis" /\ a.backend = "numpy"
   THEN [objs |-> WriteBufs(objs, a.bufs, tok + 10),
         res |-> [id |-> RId, kind |-> "raster", bufs |-> a.bufs, wr |-> a.wr, val |-> tok + 1, dtype |-> a.dtype,
-                 coords |-> <<>>, attrs |-> a.attrs, dims |-> a.dims, shape |-> a.shape, backend |-> a.backend, name |-> "perlin"]]
+                 coords |-> <<>>, attrs |-> a.attrs, dims |-> a.dims, shape |-> a.shape, backend |-> a.backend, name |-> "perlin", cbufs |-> <<>>, val2 |-> tok + 1]]
   ELSE [objs |-> objs,
         res |-> [id |-> RId, kind |-> "raster", bufs |-> <<nbuf + 1>>, wr |-> TRUE, val |-> tok + 1, dtype |-> "float32",
-                 coords |-> <<>>, attrs |-> a.attrs, dims |-> a.dims, shape |-> a.shape, backend |-> a.backend, name |-> "perlin"]]
+                 coords |-> <<>>, attrs |-> a.attrs, dims |-> a.dims, shape |-> a.shape, backend |-> a.backend, name |-> "perlin", cbufs |-> <<>>, val2 |-> tok + 1]]
 
 EffViewshed(a) ==
   LET a2 == [a EXCEPT !.bufs = <<nbuf + 2>>, !.dtype = "float64", !.wr = TRUE,
                       !.val = IF MUT = "widen_changes_values" /\ a.dtype # "float64" THEN tok + 2 ELSE a.val]
   IN [objs |-> Replace(objs, a.id, a2),
       res |-> [id |-> RId, kind |-> "raster", bufs |-> <<nbuf + 1>>, wr |-> TRUE, val |-> tok + 1, dtype |-> "float64",
-               coords |-> a.coords, attrs |-> a.attrs, dims |-> a.dims, shape |-> a.shape, backend |-> a.backend, name |-> "viewshed"]]
+               coords |-> a.coords, attrs |-> a.attrs, dims |-> a.dims, shape |-> a.shape, backend |-> a.backend, name |-> "viewshed", cbufs |-> <<100 + nbuf + 1>>, val2 |-> tok + 1]]
 
 EffApply(z, v) ==
   LET v2 == [v EXCEPT !.bufs = <<nbuf + 1>>, !.val = tok + 1, !.wr = TRUE, !.backend = "numpy"]
@@ -106,13 +114,13 @@ EffApply(z, v) ==
 
 EffTable(f, z, v) ==
   [objs |-> objs,
-   res |-> [NoRes EXCEPT !.kind = "table", !.bufs = <<nbuf + 1, nbuf + 2>>, !.wr = TRUE, !.val = tok + 1]]
+   res |-> [NoRes EXCEPT !.kind = "table", !.bufs = <<nbuf + 1, nbuf + 2>>, !.wr = TRUE, !.val = tok + 1, !.val2 = tok + 1]]
 
 EffOwnShape(f, a) ==
   [objs |-> objs,
    res |-> [id |-> RId, kind |-> "raster", bufs |-> <<nbuf + 1>>, wr |-> TRUE, val |-> tok + 1, dtype |-> "float32",
-            coords |-> Append(a.coords, <<"stats", "s0">>), attrs |-> a.attrs, dims |-> <<"stats", "y", "x">>,
-            shape |-> <<7>> \o a.shape, backend |-> IF MUT = "eager_on_dask" THEN "numpy" ELSE a.backend, name |-> f]]
+            coords |-> Append(a.coords, <<"stats", "s0", 1>>), attrs |-> a.attrs, dims |-> <<"stats", "y", "x">>,
+            shape |-> <<7>> \o a.shape, backend |-> IF MUT = "eager_on_dask" THEN "numpy" ELSE a.backend, name |-> f, cbufs |-> <<100 + nbuf + 1>>, val2 |-> tok + 1]]
 
 Arity(f) == IF f \in {"crop", "zonal_apply", "zonal_stats", "zonal_crosstab", "gci", "nbr", "nbr2", "ndvi", "ndmi", "savi"} THEN 2
             ELSE IF f \in {"arvi", "evi", "sipi", "ebbi", "true_color"} THEN 3 ELSE 1
@@ -168,6 +176,7 @@ ProbeStep  == phase = "called" /\ phase' = "idle"
 InputsUntouchedP == [][CalledStep => InputsUntouched(last'.f, last'.args, objs, objs') = "ok"]_vars
 NoAliasP == [][/\ CalledStep => NoAlias(last'.f, last'.args, objs', last'.res) = "ok"
                /\ ProbeStep  => ProbeOK(last.f, last.args, objs, objs', last.res) = "ok"]_vars
+RecomputeP == [][CalledStep => (last'.res.kind = "none" \/ last'.res.val2 = last'.res.val)]_vars
 IdentityKeptP == [][CalledStep => IdentityKept(last'.f, last'.args, objs, last'.res) = "ok"]_vars
 
 TypeOK == /\ phase \in {"idle", "called"} /\ ncalls \in 0..MAXCALLS
